@@ -154,9 +154,10 @@ def dfxp_div_langs(tt: int, d0: int, d1: int, d2: int, ndiv: int) -> str:
 
 
 # --- language options ----------------------------------------------------------------------------------
-def _three(order):
-    names = [("en", "fr", "de"), ("fr", "de", "en"), ("de", "en", "fr")][order]
-    return CaptionSet({n: CaptionList([Caption(1000000, 2000000, [CaptionNode.create_text("text-" + n)])]) for n in names}), names
+def _three(order, codes=("en", "fr", "de")):
+    a, b, c = codes
+    names = [(a, b, c), (b, c, a), (c, a, b)][order]
+    return CaptionSet({n: CaptionList([Caption(1000000, 2000000, [CaptionNode.create_text("text-" + n + "!")])]) for n in names}), names
 
 
 def lang_options(order: int, pick: int, writer: int) -> str:
@@ -164,28 +165,45 @@ def lang_options(order: int, pick: int, writer: int) -> str:
     pre: 0 <= order < 3 and 0 <= pick < 5 and 0 <= writer < 3
     post: _ == ""
     """
-    cs, names = _three(order)
-    want = (None, "en", "fr", "de", "xx")[pick]
+    return _lang_options(order, pick, writer, ("en", "fr", "de"))
+
+
+def lang_options_prefix(order: int, pick: int, writer: int) -> str:
+    """
+    pre: 0 <= order < 3 and 0 <= pick < 5 and 0 <= writer < 3
+    post: _ == ""
+    """
+    # one language code is a prefix of another: the option names exactly one of them
+    return _lang_options(order, pick, writer, ("fr", "fr-CA", "de"))
+
+
+def _lang_options(order, pick, writer, codes):
+    cs, names = _three(order, codes)
+    want = (None, codes[0], codes[1], codes[2], codes[0][:1] + "-")[pick]   # the last one is not a language of the set
+    unknown = pick == 4
+
+    def present_in(out):
+        return [n for n in codes if ("text-" + n + "!") in out]
     if writer == 0:
         out = WebVTTWriter().write(cs) if want is None else WebVTTWriter().write(cs, lang=want)
         exp = names[0] if want is None else want
-        present = [n for n in ("en", "fr", "de") if ("text-" + n) in out]
-        if want == "xx":
+        present = present_in(out)
+        if unknown:
             return "" if present == [] else "unknown language selected something"
         return "" if present == [exp] else "WebVTT lang= selected another language"
     from harness.C09_writers import _FakeBS
     with _FakeBS():
         if writer == 1:
             out = DFXPWriter().write(cs) if want is None else DFXPWriter().write(cs, force=want)
-            present = [n for n in ("en", "fr", "de") if ("text-" + n) in out]
-            if want is None or want == "xx":
-                return "" if present == ["en", "fr", "de"] else "DFXP without a usable force= must write all languages"
+            present = present_in(out)
+            if want is None or unknown:
+                return "" if present == list(codes) else "DFXP without a usable force= must write all languages"
             return "" if present == [want] else "DFXP force= selected another language"
         out = LegacyDFXPWriter().write(cs) if want is None else LegacyDFXPWriter().write(cs, force=want)
-    present = [n for n in ("en", "fr", "de") if ("text-" + n) in out]
+    present = present_in(out)
     if want is None:
-        return "" if present == ["en", "fr", "de"] else "legacy DFXP must write all languages"
-    if want == "xx":
+        return "" if present == list(codes) else "legacy DFXP must write all languages"
+    if unknown:
         return ""  # documented: falls back to the last language
     return "" if present == [want] else "legacy force= selected another language"
 
